@@ -1,7 +1,8 @@
 """C01 — bounded stand-in over program texts (see runtime/h_pipeline.py); contracts on the pipeline functions are added below as they are discharged."""
 ID = "C01"
 LEVEL = "exploration"
-FUNCTIONS = []
+FUNCTIONS = ['codelimit.common.Scanner:scan_file']
+BOUNDED_BUDGET = 300
 TRUSTED = ["Pygments lexers (exercised, not verified)", "the canonical-program generator's expected values (computed from the derivation)"]
 ASSUMPTIONS = []
 BOUND = 'canonical programs of all 7 languages: 12 boundary body lengths x 4 layout styles, global code between functions, nesting first/middle/last/two children/depth 3, arrow/async/special parameter lists (quick: ~390 programs; thorough: +150 random programs per language)'
